@@ -42,6 +42,17 @@ fn run_line(line: &str) -> String {
         "hll_hex" => codec::cmd_hll_hex(&mut t),
         "hll_env" => codec::cmd_hll_env(&mut t),
         "hex" => codec::cmd_hex(&mut t),
+        "crashtrace" | "crash" => {
+            let root = std::env::var("VERIF_RUN_DIR").unwrap_or_else(|_| "/verif/.cache/run".to_string());
+            let root = std::path::PathBuf::from(root);
+            let _ = std::fs::create_dir_all(&root);
+            if cmd == "crashtrace" {
+                db::cmd_crashtrace(&mut t, &root)
+            } else {
+                db::cmd_crash(&mut t, &root, line)
+            }
+        }
+        "crashchild" => db::cmd_crashchild(&mut t),
         "dbhist" => {
             let root = std::env::var("VERIF_RUN_DIR").unwrap_or_else(|_| "/verif/.cache/run".to_string());
             let root = std::path::PathBuf::from(root);
